@@ -217,9 +217,15 @@ func (r *rec) pick(corpus []string) {
 			pk := picker.New(b, move.Move(hm), ms, &rk, hs)
 			ms.Push()
 			ys := []Y{}
+			// half of the runs use the picker the way the search does: the yielded entry's weight is overwritten with
+			// the value the move got (or -Inf for an illegal one) before the next move is asked for
+			writeBack := r.rng.Intn(2) == 0
 			for pk.Next() {
 				w := pk.Move()
 				ys = append(ys, Y{int(w.Move), int(w.Weight)})
+				if writeBack {
+					w.Weight = Score([]int{-10000, -37, 0, 12, 250, 9999}[r.rng.Intn(6)])
+				}
 				if len(ys) > 400 {
 					break
 				}
